@@ -109,7 +109,7 @@ def check(case):
                         if seen != obj.elements_added:
                             return f"step {step} after {op}: the backing file records {seen} elements, the filter reports {obj.elements_added}"
                     if kind == "stats":
-                        m, k, X, cnt = obj.number_bits, obj.number_hashes, obj._cnt_number_bits_set(), obj.elements_added
+                        m, k, X, cnt = obj.number_bits, obj.number_hashes, core.bloom_setbits(obj), obj.elements_added
                         if X != sum(bin(b).count("1") for b in obj.bloom):
                             return f"step {step}: set-bit count {X} wrong"
                         e = -1 if X >= m else int(-(m / k) * math.log(1 - X / m))
